@@ -18,6 +18,7 @@ Rules
 - The change must be the kind of thing a real commit could introduce (a refactor slip, an off-by-one, a dropped or reordered statement, a stale cache, a missing lock, a wrong operand, a check moved to the wrong place) — small (ideally < 15 changed lines), plausible, and NOT something ordinary use would expose at once. Prefer a change that needs something specific to manifest: a particular interleaving, a fault at a particular point, a multi-step sequence of operations, an unusual-but-legal input, a boundary value, or two cooperating sites that each look fine alone.
 - It must compile (`go build ./...` in the worktree) and the existing tests of every package you touched (and of packages that directly depend on the changed behaviour) must still pass: run `go test -vet=off -count=1 ./<pkg>/...` for them and report the output.
 - Write a demonstration: a Go test file (in the touched package, named zz_seed_demo_test.go) or a small program that FAILS with your change and PASSES on the unchanged code. Run it both ways and report both results. The demonstration should show the property being violated in terms of the statement above (observable behaviour), not just that the code differs.
+- Never use `git stash` (the stash is shared by all worktrees of /repo and other agents work in parallel); to run the demo on unchanged code use `git diff > /tmp/p.diff; git apply -R /tmp/p.diff; ...; git apply /tmp/p.diff`.
 - Deliver in the directory {wt}-out/ (create it): patch.diff (`git -C {wt} diff` of the change to bfe only, without the demo file), the demo file, and notes.md (what the change is, why it breaks the property, what it needs in order to manifest, exact commands you ran and their results).
 - When everything is delivered, remove the worktree: `git -C /repo worktree remove --force {wt}` (keep {wt}-out/).
 Reply with a short summary: the idea of the change, what is needed to trigger it, test/demonstration results, and the output directory.""")
